@@ -172,9 +172,12 @@ class FileDumper(DumperBase):
 
             file_formatter = self.file_formatters[resource.res.name]
 
+            # text is written in the encoding the descriptor records (not the locale's)
+            text_mode = 'b' not in file_formatter.FILE_MODE
             temp_file = UmaskNamedTemporaryFile(
                 mode=file_formatter.FILE_MODE, delete=False,
-                newline='' if 'b' not in file_formatter.FILE_MODE else None
+                newline='' if text_mode else None,
+                encoding='utf-8' if text_mode else None
             )
             writer_kwargs = self.writer_options
             if self.use_titles:
